@@ -48,6 +48,17 @@ Inductive sop :=
 | QCpb (i : nat) (dn : nat)                (* obj[i].copyToBuffer(buffer of dn cells, dn) *)
 | QFind (i : nat) (start ch : N).          (* obj[i].findFrom(start, ch) *)
 
+(* one step on ONE SimpleStringCollection that lives through the whole scenario (harness: `:col`): the collection as an object with
+   a history -- filled by split() with a delimiter of ANY length, re-allocated, written through operator[], read inside and outside
+   its range *)
+Inductive cop :=
+| KSplit (a d : list N)                    (* SimpleString(a).split(SimpleString(d), col) *)
+| KAlloc (n : nat)                         (* col.allocate(n) *)
+| KPut (i : N) (a : list N)                (* col[i] = SimpleString(a); i is any size_t: out of range it writes the collection's spare element *)
+| KSize                                    (* observer: col.size() *)
+| KGet (i : N)                             (* observer: col[i], any size_t *)
+| KSnap.                                   (* observer: size(), col[0] .. col[size() - 1], col[size()] *)
+
 Inductive scn :=
 | SOp (o : op)
 | SRepeat (a : list N) (k : nat)
@@ -56,7 +67,8 @@ Inductive scn :=
 | SSplit (a : list N) (d : N)
 | SFromTill (a : list N) (c1 c2 : N)
 | SMasked (v m bc : N)
-| SBinary (bytes : list N).
+| SBinary (bytes : list N)
+| SColl (ops : list cop).
 
 Fixpoint updl {A} (i : nat) (v : A) (l : list A) : list A :=
   match l with [] => [] | x :: r => match i with O => v :: r | S i' => x :: updl i' v r end end.
@@ -125,6 +137,70 @@ Definition vlist (r : res (list (list N))) : oval :=
 Definition vseq (r : res (list (list N) * list (list N))) : oval :=
   match r with Ok (l, lg) => match cstrs l with Some v => VL (v ++ lg) | None => VErr end | _ => VErr end.
 
+(* ---------------------------------------------------------------- the model of SimpleStringCollection (an object with a history) *)
+(* collection_ (the array new SimpleString[size_] -- the empty list also stands for NULL: `delete[]` of either does nothing), size_, empty_ *)
+Record coll := { c_arr : list (list N); c_size : nat; c_empty : list N }.
+Definition c_new : coll := {| c_arr := []; c_size := 0; c_empty := emptyString |}.
+(* allocate(n): delete[] collection_; size_ = n; collection_ = new SimpleString[n] -- n strings "" whatever was there before *)
+Definition c_allocate (c : coll) (n : nat) : coll := {| c_arr := repeat emptyString n; c_size := n; c_empty := c_empty c |}.
+(* operator[](index): `if (index >= size_) { empty_ = ""; return empty_; } return collection_[index];` -- the bound is size_, the
+   element is read from the array: an array shorter than size_ is a read outside it *)
+Definition c_get (c : coll) (i : N) : res (coll * list N) :=
+  if N.of_nat (c_size c) <=? i then Ok ({| c_arr := c_arr c; c_size := c_size c; c_empty := emptyString |}, emptyString)
+  else match nth_error (c_arr c) (N.to_nat i) with Some b => Ok (c, b) | None => Oob end.
+(* col[index] = v (v = the buffer operator= has copied) *)
+Definition c_put (c : coll) (i : N) (v : list N) : res coll :=
+  if N.of_nat (c_size c) <=? i then Ok {| c_arr := c_arr c; c_size := c_size c; c_empty := v |}
+  else if Nat.ltb (N.to_nat i) (length (c_arr c)) then Ok {| c_arr := updl (N.to_nat i) v (c_arr c); c_size := c_size c; c_empty := c_empty c |}
+  else Oob.
+(* the loop of split(): `prev = str; str = StrStr(str, delimiter) + 1; col[i] = SimpleString(prev).subString(0, str - prev);` *)
+Fixpoint split_into (c : coll) (str delim : list N) (i num : nat) : res (coll * list N) :=
+  match num with O => Ok (c, str) | S num' =>
+    do r <- StrStr str delim;
+    match r with None => Oob            (* NULL + 1, read by SimpleString(prev) / the next StrStr *)
+    | Some off =>
+      do nxt <- adv (S off) str;
+      do whole <- newFrom str; do piece <- subString_m whole 0 (N.of_nat (S off));
+      do v <- newFrom piece;
+      do c' <- c_put c (N.of_nat i) v;
+      split_into c' nxt delim (S i) num' end end.
+Definition c_split (c : coll) (a delim : list N) : res coll :=
+  do num <- count_m a delim; do e <- endsWith_m a delim;
+  let c1 := c_allocate c (num + (if e then 0 else 1)) in
+  do pr <- split_into c1 a delim 0 num;
+  if e then Ok (fst pr) else do last <- newFrom (snd pr); c_put (fst pr) (N.of_nat num) last.
+Definition kstep (c : coll) (q : cop) : res coll :=
+  match q with
+  | KSplit a d => c_split c (cs a) (cs d)
+  | KAlloc n => Ok (c_allocate c n)
+  | KPut i a => do t <- newFrom (cs a); do v <- newFrom t; c_put c i v
+  | KGet i => do p <- c_get c i; Ok (fst p)
+  | KSnap => do p <- c_get c (N.of_nat (c_size c)); Ok (fst p)
+  | KSize => Ok c
+  end.
+(* asCharString() of an element, read up to its terminator *)
+Definition str_of (b : list N) : res (list N) := match cstr_of b with Some s => Ok s | None => Oob end.
+Fixpoint c_read (c : coll) (i k : nat) : res (list (list N)) :=          (* col[i] .. col[i + k - 1] *)
+  match k with O => Ok [] | S k' => do p <- c_get c (N.of_nat i); do s <- str_of (snd p); do r <- c_read c (S i) k'; Ok (s :: r) end.
+Definition c_snap (c : coll) : res (list (list N)) :=
+  do els <- c_read c 0 (c_size c); do p <- c_get c (N.of_nat (c_size c)); do e <- str_of (snd p);
+  Ok (le8 (N.of_nat (c_size c)) :: els ++ [e]).
+Definition kobs (c : coll) (q : cop) : res (list (list N)) :=
+  match q with
+  | KSize => Ok [le8 (N.of_nat (c_size c))]
+  | KGet i => do p <- c_get c i; do s <- str_of (snd p); Ok [s]
+  | KSnap => c_snap c
+  | _ => Ok []
+  end.
+Fixpoint krun (c : coll) (ops : list cop) : res (coll * list (list N)) :=
+  match ops with
+  | [] => Ok (c, [])
+  | q :: r => do e <- kobs c q; do c' <- kstep c q; do p <- krun c' r; Ok (fst p, e ++ snd p)
+  end.
+(* a scenario: the log of the observers, then the collection as it is at the end *)
+Definition vcoll (ops : list cop) : oval :=
+  match (do p <- krun c_new ops; do s <- c_snap (fst p); Ok (snd p ++ s)) with Ok l => VL l | _ => VErr end.
+
 Definition eval_scn (s : scn) : oval :=
   match s with
   | SOp o => eval o
@@ -135,6 +211,7 @@ Definition eval_scn (s : scn) : oval :=
   | SFromTill a c1 c2 => vstr (subStringFromTill_m (cs a) c1 c2)
   | SMasked v m bc => match maskedBits_m v m bc with Ok l => VB l | _ => VErr end
   | SBinary bytes => match binary_m bytes (length bytes) with Ok l => VB l | _ => VErr end
+  | SColl ops => vcoll ops
   end.
 (* allocator pairing verdict of the modelled event log: the log of the padding scenario is modelled event by event (C13_Pool.v);
    every other operation touches its buffers only through the primitives of C13_Alloc.v, on any number of objects: theorem
@@ -201,6 +278,41 @@ Fixpoint t_run (st : list (list N)) (ops : list sop) : list (list N) * list (lis
   match ops with [] => (st, []) | q :: r => let p := t_run (t_sstep st q) r in (fst p, t_sobs st q ++ snd p) end.
 Definition t_seq (ops : list sop) : list (list N) := let p := t_run [[]; []; []; []] ops in fst p ++ snd p.
 
+(* ---------------------------------------------------------------- textbook meaning of split with a delimiter of any length, and of a collection *)
+(* What split(d) is, read off the unchanged code (token count = count(d), which counts overlapping occurrences; the scan goes on
+   one byte behind the START of each match): walking s from the left, a piece ends with the byte at which an occurrence of d
+   starts -- occurrences may overlap, each one ends a piece; for the empty delimiter (it occurs everywhere) every byte is a piece.
+   t_cuts = (those pieces, what is left behind the last of them). *)
+Fixpoint t_cuts (d s : list N) : list (list N) * list N :=
+  match s with
+  | [] => ([], [])
+  | c :: r => let p := t_cuts d r in
+              if is_prefix d s then ([c] :: fst p, snd p)
+              else match fst p with [] => ([], c :: snd p) | x :: xs => ((c :: x) :: xs, snd p) end
+  end.
+(* the rest behind the last piece is the last token unless s ends with d (then it is empty for a one-byte delimiter and the
+   delimiter's tail -- which belongs to no token -- for a longer one); the empty string is one empty token, none for the empty delimiter *)
+Definition t_split_str (d s : list N) : list (list N) :=
+  let p := t_cuts d s in if t_ends_with s d then fst p else fst p ++ [snd p].
+(* a collection is the list of its strings; a write outside the range is lost, a read outside it gives "" *)
+Definition t_kstep (items : list (list N)) (q : cop) : list (list N) :=
+  match q with
+  | KSplit a d => t_split_str d a
+  | KAlloc n => repeat [] n
+  | KPut i a => if i <? N.of_nat (length items) then updl (N.to_nat i) a items else items
+  | KSize | KGet _ | KSnap => items
+  end.
+Definition t_snap (items : list (list N)) : list (list N) := le8 (N.of_nat (length items)) :: items ++ [[]].
+Definition t_kobs (items : list (list N)) (q : cop) : list (list N) :=
+  match q with
+  | KSize => [le8 (N.of_nat (length items))]
+  | KGet i => [if i <? N.of_nat (length items) then nth (N.to_nat i) items [] else []]
+  | KSnap => t_snap items
+  | _ => []
+  end.
+Fixpoint t_krun (items : list (list N)) (ops : list cop) : list (list N) :=
+  match ops with [] => t_snap items | q :: r => t_kobs items q ++ t_krun (t_kstep items q) r end.
+
 (* ---------------------------------------------------------------- validity *)
 Definition idx (i : nat) : bool := Nat.ltb i 4.
 Definition chr (c : N) : bool := negb (c =? 0) && (c <? 256).
@@ -235,6 +347,14 @@ Definition valid_at (st : list (list N)) (q : sop) : bool :=
   match q with QRFromTill j _ _ => N.of_nat (length (nth j st [])) <? NPOS | _ => true end.
 Fixpoint valid_ops (st : list (list N)) (ops : list sop) : bool :=
   match ops with [] => true | q :: r => valid_sop q && valid_at st q && valid_ops (t_sstep st q) r end.
+Definition valid_cop (q : cop) : bool :=
+  match q with
+  | KSplit a d => nonul a && nonul d
+  | KAlloc n => N.of_nat n <? 65536                     (* new SimpleString[n] of an absurd n is the allocator's business, not the property's *)
+  | KPut i a => (i <? SIZE_MOD) && nonul a
+  | KGet i => i <? SIZE_MOD
+  | KSize | KSnap => true
+  end.
 Definition valid_scn (s : scn) : bool :=
   match s with
   | SOp o => valid o
@@ -245,6 +365,7 @@ Definition valid_scn (s : scn) : bool :=
   | SFromTill a c1 c2 => nonul a && isbyte c1 && isbyte c2 && (N.of_nat (length a) <? NPOS)      (* LP64: a length is a size_t below npos *)
   | SMasked v m bc => (v <? ULONG_MOD) && (m <? ULONG_MOD) && (bc <? SIZE_MOD)
   | SBinary bytes => forallb isbyte bytes
+  | SColl ops => forallb valid_cop ops
   end.
 (* ---------------------------------------------------------------- spec: textbook values *)
 Definition expected_scn (s : scn) : oval :=
@@ -257,6 +378,7 @@ Definition expected_scn (s : scn) : oval :=
   | SFromTill a c1 c2 => VB (t_from_till a c1 c2)
   | SMasked v m bc => VB (t_masked v m bc)
   | SBinary bytes => VB (t_binary bytes)
+  | SColl ops => VL (t_krun [] ops)
   end.
 (* result equals the textbook value; the harness's independent reference (std::string / libc) agreed with what the code
    returned; every buffer went back to the string allocator exactly once with the size it was requested with *)
